@@ -19,9 +19,10 @@ func shapeCases(tier string) []*space.Case {
 		cs = append(cs, space.F3(space.Representatives())...)
 	} else {
 		cs = append(cs, space.F1("X")...)
-		cs = append(cs, space.F2(space.Representatives()[:14], false)...)
+		cs = append(cs, space.F2(space.Representatives(), false)...)
 	}
 	cs = append(cs, space.F4()...)
+	cs = append(cs, configuredCases(tier)...)
 	// sorted generation of every case that contains a oneof (the first declared branch is not the
 	// alphabetically smallest one in these messages), and of the sink
 	var sorted []*space.Case
@@ -35,6 +36,44 @@ func shapeCases(tier string) []*space.Case {
 	// injected (schema only) attributes on root and nested paths, including paths of messages without fields
 	cs = append(cs, injectedCases()...)
 	return cs
+}
+
+// configuredCases: the converters are also explored under non-default configurations (sorting,
+// renames, per-field options in both key forms, exclusions), on lower_snake names, on pairs of
+// shape classes in one message, on the multi-root file and on a recursive message cut by exclusions.
+func configuredCases(tier string) []*space.Case {
+	var out []*space.Case
+	if tier != "thorough" {
+		for _, c := range space.F1("my_field") {
+			switch c.Tags["vt"] + "/" + c.Tags["card"] {
+			case "string/single", "msgNullable/single", "string/oneof", "msgNullable/oneof", "string/repeated", "int64/map", "enum/single", "stdtimeNullable/single", "bytes/oneof":
+				out = append(out, c)
+			}
+		}
+		reps := [][2]string{{"string", "single"}, {"msgNullable", "single"}, {"string", "oneof"}, {"msgNullable", "oneof"}, {"emptyNullable", "single"}, {"string", "repeated"}, {"string", "map"}, {"msgNonNull", "repeated"}, {"customBool", "single"}}
+		out = append(out, space.F3(reps)...)
+	}
+	sink := space.F4()[0]
+	out = append(out, space.Variant(sink, true, false, "names"), space.Variant(sink, false, false, "typekey-options"))
+	f5 := space.F5()[0]
+	out = append(out, f5, space.Variant(f5, true, false, "typekey-options"))
+	ex := space.F5()[0]
+	ex.Cfg.Exclude = []string{"Shared.Label", "Alpha.Items", "Beta.ByKey.Tiny", "Gamma.KT", "Tiny.N"}
+	ex.Label = "F5/all|excluded"
+	out = append(out, ex)
+	// recursive message graph cut by exclude_fields (README: the way to handle it)
+	node := &dsl.Message{Name: "Node", Fields: []*dsl.Field{
+		{Name: "Next", Num: 1, T: dsl.Msg, Ref: "Node"},
+		{Name: "Kids", Num: 2, T: dsl.Msg, Ref: "Node", Card: dsl.Repeated},
+		{Name: "V", Num: 3, T: dsl.String},
+		{Name: "L", Num: 4, T: dsl.Msg, Ref: "Leaf"},
+		{Name: "Peer", Num: 5, T: dsl.Msg, Ref: "Other"},
+	}}
+	other := &dsl.Message{Name: "Other", Fields: []*dsl.Field{{Name: "Back", Num: 1, T: dsl.Msg, Ref: "Node"}, {Name: "O", Num: 2, T: dsl.Int32}}}
+	rc := space.BaseConfig("Node")
+	rc.Exclude = []string{"Node.Next", "Node.Kids", "Other.Back"}
+	out = append(out, &space.Case{Label: "FR/recursive-cut", Family: "FR", Tags: map[string]string{"class": "recursive", "card": "mixed", "vt": "recursive", "pos": "deep"}, File: space.Close(&dsl.File{GettersOff: true, Messages: []*dsl.Message{node, other}}), Cfg: rc})
+	return out
 }
 
 func injectedCases() []*space.Case {
